@@ -3,15 +3,23 @@ C08 — AES-CBC/GCM helpers and PKCS#7 padding (`cryptz/aes.go`).  ONLY property
 non-vacuity examples live here; helper lemmas are in `Golib/Proof/C08*.lean`.
 
 The block cipher and the AEAD are parameters: the theorems hold for EVERY `(E, D)` with
-`D k (E k x) = x` on blocks and every `(seal, open)` with `open (seal p) = some p` — these
-are hypotheses (never axioms).  The executable AES/GCM instances used by the correspondence
-check are in `Model/C08Aes.lean`, `Model/C08Gcm.lean` (validated by test vectors, not proved).
+`D key (E key x) = x` on 16-BYTE blocks (`IsBytes`: all entries < 256) under the key at hand
+and every `(seal, open)` with `open (seal p) = some p` under that key — hypotheses, never
+axioms, and stated so that a concrete cipher on bytes CAN meet them (nothing is asked about
+lists holding numbers ≥ 256 or about invalid keys).  The executable AES/GCM instances used by
+the correspondence check are in `Model/C08Aes.lean`, `Model/C08Gcm.lean`; the `…_aes`
+theorems at the end instantiate the parametric ones with them, using the facts proved about
+those instances in `Proof/C08AesInv.lean` / `Proof/C08GcmInv.lean`.
 
 Not a theorem (cryptographic, labelled partial in the manifest): "any change to ciphertext,
 tag, nonce or additional data makes GCM decryption fail" — exercised on the real code by
 all single-bit flips.
 -/
 import Golib.Proof.C08Main
+import Golib.Proof.C08Off
+import Golib.Proof.C08AesInv
+import Golib.Proof.C08GcmInv
+import Golib.Model.C08
 import Golib.Gen.FactsC08
 
 namespace Golib.C08
@@ -61,14 +69,14 @@ plaintext length (empty and block-aligned included), in every documented layout:
 decryption a separate `dst` of the ciphertext's size or the ciphertext's own memory
 (the in-place case runs the standard library's backward loop on the one shared buffer). -/
 theorem c08_cbc_roundtrip (C : Cipher) (key iv pt dst : Bytes) (lay : DecLayout)
-    (hE : ∀ k x, x.length = 16 → (C.E k x).length = 16)
-    (hDE : ∀ k x, x.length = 16 → C.D k (C.E k x) = x)
-    (hk : keyOK key = true) (hiv : iv.length = 16)
+    (hE : ∀ x, x.length = 16 → IsBytes x → (C.E key x).length = 16 ∧ IsBytes (C.E key x))
+    (hDE : ∀ x, x.length = 16 → IsBytes x → C.D key (C.E key x) = x)
+    (hk : keyOK key = true) (hiv : iv.length = 16) (hivb : IsBytes iv) (hptb : IsBytes pt)
     (hdst : dst.length = cbcEncryptLen pt.length)
     (hlay : ∀ d, lay = .fresh d → d.length = cbcEncryptLen pt.length) :
     ∃ ct, aesCBCEncrypt C dst pt key iv = .ok ct ∧
       ct = cbcEncrypt (C.E key) iv (pt ++ List.replicate (16 - pt.length % 16) (16 - pt.length % 16)) ∧
-      ct.length = cbcEncryptLen pt.length ∧
+      ct.length = cbcEncryptLen pt.length ∧ IsBytes ct ∧
       ∃ d, aesCBCDecrypt C lay ct key iv = .ok ((pt.length : Int), d) ∧ d.take pt.length = pt := by
   apply main_cbc_roundtrip <;> assumption
 
@@ -94,7 +102,7 @@ theorem c08_cbc_decrypt_rejects (C : Cipher) (lay : DecLayout) (ct key iv : Byte
 leaves exactly `Seal`'s output (ciphertext ‖ 16-byte tag) in `dst`; `AESGCMDecryptLen`
 inverts `AESGCMEncryptLen`. -/
 theorem c08_gcm_lens (A : AEAD) (dst pt key nonce ad : Bytes)
-    (hseal : ∀ k n p a, (A.sealF k n p a).length = p.length + 16)
+    (hseal : ∀ n p a, (A.sealF key n p a).length = p.length + 16)
     (hk : keyOK key = true) (hn : nonce ≠ [])
     (hdst : dst.length = gcmEncryptLen pt.length) :
     gcmEncryptLen pt.length = pt.length + 16 ∧
@@ -106,8 +114,8 @@ theorem c08_gcm_lens (A : AEAD) (dst pt key nonce ad : Bytes)
 valid key, with `dst` sized by the helpers (fresh, or the input's own memory — the content
 `dst` had before does not matter); an input `Open` rejects is an error. -/
 theorem c08_gcm_roundtrip (A : AEAD) (dst dst' pt key nonce ad : Bytes)
-    (hseal : ∀ k n p a, (A.sealF k n p a).length = p.length + 16)
-    (hopen : ∀ k n p a, A.openF k n (A.sealF k n p a) a = some p)
+    (hseal : ∀ n p a, (A.sealF key n p a).length = p.length + 16)
+    (hopen : ∀ n p a, A.openF key n (A.sealF key n p a) a = some p)
     (hk : keyOK key = true) (hn : nonce ≠ [])
     (hdst : dst.length = gcmEncryptLen pt.length)
     (hdst' : (dst'.length : Int) = gcmDecryptLen (gcmEncryptLen pt.length)) :
@@ -127,6 +135,92 @@ theorem c08_bad_key (C : Cipher) (A : AEAD) (dst data key iv ad : Bytes) (lay : 
     (aesCBCDecrypt C lay data key iv = .err "len" ∨ aesCBCDecrypt C lay data key iv = .err "key") := by
   apply main_bad_key <;> assumption
 
+/-- OFF the documented contract (`dst` not sized by the length helper) — not demanded by the
+property, stated so that the hazards are on record and the model's behaviour there (which the
+correspondence check compares with the real code on the `fresh±K` / `inplace±K` layouts) is
+pinned down: (1) `dst` shorter than the plaintext, or not a multiple of 16: panic;
+(2) THE SILENT ONE: block-aligned plaintext and `dst` of the plaintext's own length — the
+ciphertext of the UNPADDED plaintext, no error; (3) `AESCBCDecrypt` into a longer separate
+`dst`: the padding is looked for at the end of `dst`, not of the text; into a shorter one: panic;
+(4) GCM with a `dst` too short: `Seal`/`Open` allocate, `dst` is left as it was, no error. -/
+theorem c08_dst_offcontract (C : Cipher) (A : AEAD) (dst pt ct key iv nonce ad p : Bytes)
+    (hk : keyOK key = true) (hiv : iv.length = 16) (hn : nonce ≠ []) :
+    (dst.length < pt.length → aesCBCEncrypt C dst pt key iv = .panic) ∧
+    (pt.length ≤ dst.length → dst.length % 16 ≠ 0 → aesCBCEncrypt C dst pt key iv = .panic) ∧
+    (pt.length % 16 = 0 → dst.length = pt.length →
+      aesCBCEncrypt C dst pt key iv = .ok (cbcEncrypt (C.E key) iv pt)) ∧
+    (16 ≤ ct.length → ct.length % 16 = 0 →
+      (ct.length ≤ dst.length → aesCBCDecrypt C (.fresh dst) ct key iv =
+        match pkcs7UnPadding (cbcDecrypt (C.D key) iv ct ++ dst.drop ct.length) with
+        | .ok n => .ok (n, cbcDecrypt (C.D key) iv ct ++ dst.drop ct.length)
+        | .err e => .err e
+        | .panic => .panic) ∧
+      (dst.length < ct.length → aesCBCDecrypt C (.fresh dst) ct key iv = .panic)) ∧
+    (dst.length < (A.sealF key nonce pt ad).length → aesGCMEncrypt A dst pt key nonce ad = .ok dst) ∧
+    (A.openF key nonce ct ad = some p → dst.length < p.length →
+      aesGCMDecrypt A dst ct key nonce ad = .ok dst) :=
+  ⟨aesCBCEncrypt_short_dst C dst pt key iv hk,
+   aesCBCEncrypt_unaligned_dst C dst pt key iv hk,
+   aesCBCEncrypt_no_room_for_padding C dst pt key iv hk hiv,
+   fun h16 hmul => ⟨aesCBCDecrypt_long_dst C dst ct key iv hk hiv h16 hmul,
+     aesCBCDecrypt_short_dst C dst ct key iv hk h16 hmul⟩,
+   (aesGCM_short_dst A dst pt ct key nonce ad p hk hn).1,
+   (aesGCM_short_dst A dst pt ct key nonce ad p hk hn).2⟩
+
+/-! ### The executable instances meet the hypotheses — so the statements above hold
+UNCONDITIONALLY for the model the oracle runs (`aesCipher`, `aesGCM` of `Model/C08.lean`).
+That the Lean AES/GCM are the same FUNCTIONS as `crypto/aes` / `crypto/cipher` is not proved:
+it is tested (FIPS-197 / GCM-spec vectors at build time, every ciphertext of every run). -/
+
+/-- For every valid key of bytes: the Lean AES (FIPS-197 `Cipher` / `InvCipher` with the
+coded key expansion for 128/192/256-bit keys) maps byte blocks to byte blocks, `InvCipher`
+inverts `Cipher` on EVERY 16-byte block, and the Lean AES-GCM satisfies
+`|Seal(p)| = |p| + 16`, `Open(Seal(p)) = p`, and `Open c = p → |c| = |p| + 16`. -/
+theorem c08_instances_meet_hypotheses (key : Bytes) (hk : keyOK key = true) (hkb : IsBytes key) :
+    (∀ x, x.length = 16 → IsBytes x → (aesCipher.E key x).length = 16 ∧ IsBytes (aesCipher.E key x)) ∧
+    (∀ x, x.length = 16 → IsBytes x → aesCipher.D key (aesCipher.E key x) = x) ∧
+    (∀ x, x.length = 16 → (aesCipher.D key x).length = 16) ∧
+    (∀ n p a, (aesGCM.sealF key n p a).length = p.length + 16) ∧
+    (∀ n p a, aesGCM.openF key n (aesGCM.sealF key n p a) a = some p) ∧
+    (∀ n c a p, aesGCM.openF key n c a = some p → c.length = p.length + 16) :=
+  ⟨fun x hx hxb => aes_encrypt_block key x hk hkb hx hxb,
+   fun x hx hxb => aes_decrypt_encrypt key x hk hkb hx hxb,
+   fun x _ => aes_decrypt_length key x hk,
+   fun n p a => gcm_seal_length key n p a hk,
+   fun n p a => gcm_open_seal key n p a hk,
+   fun n c a p h => gcm_open_length key n c a p hk h⟩
+
+/-- `c08_cbc_roundtrip` for the Lean AES, no hypothesis about the cipher left: for every key of
+16/24/32 bytes, 16-byte IV and byte string `pt` (any length), in every documented layout,
+`AESCBCEncrypt` leaves exactly `AESCBCEncryptLen` bytes = CBC_AES(PKCS#7-pad(pt)) and
+`AESCBCDecrypt` of them returns `|pt|` and `pt`. -/
+theorem c08_cbc_roundtrip_aes (key iv pt dst : Bytes) (lay : DecLayout)
+    (hk : keyOK key = true) (hkb : IsBytes key) (hiv : iv.length = 16) (hivb : IsBytes iv)
+    (hptb : IsBytes pt) (hdst : dst.length = cbcEncryptLen pt.length)
+    (hlay : ∀ d, lay = .fresh d → d.length = cbcEncryptLen pt.length) :
+    ∃ ct, aesCBCEncrypt aesCipher dst pt key iv = .ok ct ∧
+      ct = cbcEncrypt (AES.encryptBlock key) iv
+        (pt ++ List.replicate (16 - pt.length % 16) (16 - pt.length % 16)) ∧
+      ct.length = cbcEncryptLen pt.length ∧ IsBytes ct ∧
+      ∃ d, aesCBCDecrypt aesCipher lay ct key iv = .ok ((pt.length : Int), d) ∧ d.take pt.length = pt :=
+  c08_cbc_roundtrip aesCipher key iv pt dst lay (c08_instances_meet_hypotheses key hk hkb).1
+    (c08_instances_meet_hypotheses key hk hkb).2.1 hk hiv hivb hptb hdst hlay
+
+/-- `c08_gcm_roundtrip` for the Lean AES-GCM, no hypothesis about the AEAD left. -/
+theorem c08_gcm_roundtrip_aes (dst dst' pt key nonce ad : Bytes)
+    (hk : keyOK key = true) (hn : nonce ≠ [])
+    (hdst : dst.length = gcmEncryptLen pt.length)
+    (hdst' : (dst'.length : Int) = gcmDecryptLen (gcmEncryptLen pt.length)) :
+    ∃ ct, aesGCMEncrypt aesGCM dst pt key nonce ad = .ok ct ∧
+      ct = GCM.gcmSeal key nonce pt ad ∧ ct.length = gcmEncryptLen pt.length ∧
+      aesGCMDecrypt aesGCM dst' ct key nonce ad = .ok pt := by
+  obtain ⟨ct, h1, h2, _⟩ := c08_gcm_roundtrip aesGCM dst dst' pt key nonce ad
+    (fun n p a => gcm_seal_length key n p a hk) (fun n p a => gcm_open_seal key n p a hk) hk hn hdst hdst'
+  have h3 := (c08_gcm_lens aesGCM dst pt key nonce ad (fun n p a => gcm_seal_length key n p a hk) hk hn hdst).2.2
+  have hct : ct = GCM.gcmSeal key nonce pt ad := by
+    rw [h1] at h3; injection h3
+  exact ⟨ct, h1, hct, by rw [hct, gcm_seal_length key nonce pt ad hk]; rfl, h2⟩
+
 /-- The facts the model hard-codes, against `Golib/Gen/FactsC08.lean`, which the go/ast
 extractor regenerates from `cryptz/aes.go` on every run: the constants, the size of the
 padding table, the bound of the `init()` loop, and that the model's table is what that loop
@@ -145,11 +239,17 @@ theorem c08_facts_match_model :
 def toyCipher : Cipher :=
   { E := fun _ x => x.drop 1 ++ x.take 1, D := fun _ x => x.drop (x.length - 1) ++ x.take (x.length - 1) }
 
-example : ∀ k x, x.length = 16 → (toyCipher.E k x).length = 16 := by
-  intro k x h; simp [toyCipher]; omega
+example : ∀ k x, x.length = 16 → IsBytes x → (toyCipher.E k x).length = 16 ∧ IsBytes (toyCipher.E k x) := by
+  intro k x h hb
+  refine ⟨by simp [toyCipher]; omega, ?_⟩
+  intro y hy
+  simp only [toyCipher, List.mem_append] at hy
+  rcases hy with hy | hy
+  · exact hb y (List.mem_of_mem_drop hy)
+  · exact hb y (List.mem_of_mem_take hy)
 
-example : ∀ k x, x.length = 16 → toyCipher.D k (toyCipher.E k x) = x := by
-  intro k x h
+example : ∀ k x, x.length = 16 → IsBytes x → toyCipher.D k (toyCipher.E k x) = x := by
+  intro k x h _
   match x, h with
   | [a0,a1,a2,a3,a4,a5,a6,a7,a8,a9,a10,a11,a12,a13,a14,a15], _ => simp [toyCipher]
 
@@ -171,6 +271,10 @@ example :
       (match aesCBCEncrypt toyCipher (List.replicate 16 0) [] (List.replicate 16 7) (List.range 16) with
         | .ok ct => ct | _ => []) (List.replicate 16 7) (List.range 16)
       = .ok (0, List.replicate 16 16) := by decide +kernel
+
+/-- the silent hazard is real: 16 bytes into a 16-byte `dst` come back as ONE block, unpadded. -/
+example : aesCBCEncrypt toyCipher (List.replicate 16 0) (List.range 16) (List.replicate 16 7) (List.replicate 16 0)
+    = .ok ((List.range 16).drop 1 ++ [0]) := by decide +kernel
 
 /-- near-valid paddings are rejected, the valid one accepted: `[1,2,2]` with `b = 3`. -/
 example : pkcs7UnPaddingPub [1, 2, 2] 3 = .ok [1] ∧ pkcs7UnPaddingPub [1, 3, 2] 3 = .err "padbytes" ∧
